@@ -4,4 +4,5 @@ Require Import MPSV.Mpc.LinkModel.
 Extraction "../ocaml/link.ml"
   wf_mpf canon_dbl dbl_of_bits bits_of_dbl
   mpf_get_d mpf_get_d_2exp mpf_get_rdpe mpf_get_2dl mpf_size_2 mpf_get_rdpe_fixed mpf_get_2dl_fixed
-  rdpe_set_d rdpe_set_2dl mpf_set_d mpf_set_rdpe mpf_set_2dl mpf_set_2dl_fixed mpf_mul_2exp mpf_div_2exp.
+  rdpe_set_d rdpe_set_2dl mpf_set_d mpf_set_rdpe mpf_set_2dl mpf_set_2dl_fixed mpf_mul_2exp mpf_div_2exp
+  mpc_get_cdpe mpc_set_cdpe mpc_get_cplx mpc_set_cplx.
